@@ -160,7 +160,7 @@ def fresh_lines(m, cfg, solve, rnd):
 
 
 WARM_KINDS = [("change_bound", 10), ("change_bounds", 4), ("change_objcoef", 5), ("change_rhscoef", 4), ("change_objsense", 1),
-              ("new_col", 1), ("add_col", 2), ("add_row", 2), ("add_rows", 1), ("new_row", 1)]
+              ("new_col", 1), ("add_col", 4), ("add_cols", 1), ("add_row", 2), ("add_rows", 1), ("new_row", 1)]
 RSOLVES = ["opt_primal p0", "opt_dual p0"]
 
 
@@ -186,10 +186,23 @@ def gen_c05_warm(rnd, stream, k):
             op = ("add_col", F(0) if rnd.random() < 0.5 else src.obj, lo, up, nm.col(rnd), ents)
         m.apply(op)
         pre.append(op)
-    L = model.script_any(m, "p0", rnd) + sf.param_lines(cfg, "p0")
-    L += [rnd.choice(RSOLVES if stream == "warm" else SOLVES), "dumpsol p0"]
+    files = {}
+    if stream == "filewarm":
+        # the problem comes from a file: the readers leave structures behind (row-wise copy of the matrix, presolve data) that
+        # problems built through the API never have, and that every later edit has to keep valid or drop
+        from checks import iofam
+        from vlib import iofmt
+        m = iofam.io_model(rnd, "noint")
+        for c in m.cols:
+            c.isint = 0
+        text, m = iofmt.mps_text(m, rnd)
+        files["src%d.mps" % k] = text.encode()
+        L = ["read_prob p0 @W@/src%d.mps MPS" % k, "dump p0"] + sf.param_lines(cfg, "p0")
+    else:
+        L = model.script_any(m, "p0", rnd) + sf.param_lines(cfg, "p0")
+    L += [rnd.choice(RSOLVES if stream != "basisload" else SOLVES), "dumpsol p0"]
     for b in range(rnd.randint(2, 5)):
-        if stream == "warm":
+        if stream in ("warm", "filewarm"):
             for _ in range(rnd.randint(1, 3)):
                 if rnd.random() < 0.5 and m.ncols:
                     # give a (possibly free, possibly nonbasic) column a finite / infinite bound
@@ -234,12 +247,12 @@ def gen_c05_warm(rnd, stream, k):
         L += [solve, "dumpsol p0"]
         L += fresh_lines(m, cfg, solve, rnd)
     L.append("storecheck p0")
-    return run.Case("C05-%s-%d" % (stream, k), L, dict(stream=stream, k=k))
+    return run.Case("C05-%s-%d" % (stream, k), L, dict(stream=stream, k=k), files)
 
 
 def gen_c05(tier, seed, stream, k):
     rnd = run.rng("C05", tier, seed, stream, k)
-    if stream in ("warm", "basisload"):
+    if stream in ("warm", "basisload", "filewarm"):
         return gen_c05_warm(rnd, stream, k)
     nm = gen_hist.Namer()
     m = gen_hist.base_lp(rnd)
@@ -307,6 +320,10 @@ def judge_c05(case, res):
     try:
         for ln, cmd, slot, op, ev, models in vscript.walk(case.script, res.events):
             m = models.get(slot)
+            if cmd == "dump" and m is None and ev.get("rc") == 0 and case.meta.get("stream") == "filewarm":
+                models[slot] = m = model.from_dump(ev)       # what the reader delivered is the reference from here on
+                C["fromfile"] = C.get("fromfile", 0) + 1
+                continue
             if cmd in vscript.EDITS:
                 if ev.get("_model_error"):
                     V.append(("C05|%s|invalid-edit-accepted" % cmd, "line %d `%s` returned 0 but its arguments are invalid" % (ln, case.script[ln][:200])))
@@ -439,7 +456,7 @@ def plan(prop, tier):
     q = tier == "quick"
     if prop == "C06":
         return [("short", 4000 if q else 60000), ("long", 96 if q else 1500), ("matgrow", 160 if q else 4000)]
-    return [("rand", 200 if q else 5000), ("pattern", 40 if q else 600), ("warm", 150 if q else 4000), ("basisload", 100 if q else 3000)]
+    return [("rand", 200 if q else 5000), ("pattern", 40 if q else 600), ("warm", 150 if q else 4000), ("basisload", 100 if q else 3000), ("filewarm", 100 if q else 3000)]
 
 
 def run_check(prop, tier, seed):
